@@ -4,6 +4,7 @@ import Stackage.Driver.Cond
 import Stackage.Driver.Marshal
 import Stackage.Driver.Traverse
 import Stackage.Driver.Alias
+import Stackage.Driver.Opts
 
 /-! Correspondence driver: case lines on stdin, `<id> M <model>` and `<id> S <spec>` lines on stdout. -/
 
@@ -18,6 +19,7 @@ def dispatch (stream payload : String) : String × String × String :=
   else if stream == "anytrees" then runAnyTrees payload
   else if stream == "paths" then runPaths payload
   else if stream == "alias" then runAlias payload
+  else if stream == "opts" then runOpts payload
   else ("NOSTREAM", "NOSTREAM", "")
 
 partial def loop (h : IO.FS.Stream) (out : IO.FS.Stream) : IO Unit := do
